@@ -32,6 +32,8 @@ struct SwitchFs {
     park_at_table_create: Vec<u64>,
     table_creates: AtomicU64,
     gate: Arc<Gate>,
+    /// while `on`: every create / rename / remove as (task of the controlled runtime, clock, what)
+    mutations: Mutex<Vec<(usize, u64, String)>>,
 }
 
 fn trace() -> bool {
@@ -55,6 +57,9 @@ struct Gate {
     /// (threads that have arrived at a stage so far, stages released so far, the gated actor is closing)
     st: shuttle::sync::Mutex<(u32, u32, bool)>,
     cv: shuttle::sync::Condvar,
+    /// the retrying opener waits on a pair of its own
+    closing: shuttle::sync::Mutex<bool>,
+    closing_cv: shuttle::sync::Condvar,
 }
 
 impl Gate {
@@ -84,11 +89,15 @@ impl Gate {
         g.1 = u32::MAX;
         g.2 = true;
         self.cv.notify_all();
+        drop(g);
+        let mut c = self.closing.lock().unwrap();
+        *c = true;
+        self.closing_cv.notify_all();
     }
     fn wait_closing(&self) {
-        let mut g = self.st.lock().unwrap();
-        while !g.2 {
-            g = self.cv.wait(g).unwrap();
+        let mut c = self.closing.lock().unwrap();
+        while !*c {
+            c = self.closing_cv.wait(c).unwrap();
         }
     }
 }
@@ -149,6 +158,15 @@ impl RandomAccessFile for CountedFile {
 }
 
 impl SwitchFs {
+    fn mutation(&self, what: &str, p: &Path) {
+        if self.on.load(Ordering::SeqCst) {
+            if let Some(t) = shuttle::current::get_current_task().map(usize::from) {
+                let name = p.file_name().map(|n| n.to_string_lossy().to_string()).unwrap_or_default();
+                self.mutations.lock().unwrap().push((t, tick(), format!("{} {}", what, name)));
+            }
+        }
+    }
+
     fn sw(&self) {
         if self.on.load(Ordering::SeqCst) {
             parking_lot::verif_rt::harness_switch("fs");
@@ -178,6 +196,7 @@ impl FileSystem for SwitchFs {
     }
     fn rename(&self, a: &Path, b: &Path) -> io::Result<()> {
         self.sw();
+        self.mutation("rename to", b);
         self.inner.rename(a, b)
     }
     fn create_file(&self, p: &Path, append: bool) -> io::Result<Box<dyn RandomAccessFile>> {
@@ -188,6 +207,8 @@ impl FileSystem for SwitchFs {
                 self.gate.park(stage as u32);
             }
         }
+        // (logged when the file is really created: after a possible stay at the gate)
+        self.mutation("create", p);
         let f = self.inner.create_file(p, append)?;
         if self.fail_wal_write.is_some() && p.extension().map(|e| e == "log").unwrap_or(false) {
             return Ok(Box::new(CountedFile {
@@ -201,6 +222,7 @@ impl FileSystem for SwitchFs {
     }
     fn remove_file(&self, p: &Path) -> io::Result<()> {
         self.sw();
+        self.mutation("remove", p);
         self.inner.remove_file(p)
     }
     fn remove_dir(&self, p: &Path) -> io::Result<()> {
@@ -242,6 +264,10 @@ pub enum Actor {
     /// at the program's gate (inside the table compaction that the open has set off); it then
     /// puts (the third put rotates the memtable), opens the gate and closes at once
     OpenNoReuseGated,
+    /// open; 100 gets of the key "m" (each consults two tables: the table that is consulted first
+    /// and does not hold the key uses up its seek allowance of 100 with the last of them and a
+    /// seek-triggered compaction is scheduled); close at once
+    OpenGetsClose,
     /// tries to open once; then, from the moment the gated actor starts to close, again and again
     /// (yielding in between) until it succeeds; keeps the handle
     OpenRetryHold,
@@ -258,6 +284,9 @@ pub enum Initial {
     /// of that open and is still running (or has just flushed the memtable its owner rotated) when
     /// the owner closes
     ClosedCompactionDue,
+    /// closed, with two overlapping level-0 tables {b,c,y} (newer) above {a,m,z}: a get of "m"
+    /// consults both
+    ClosedTwoOverlappingTables,
 }
 
 #[derive(Clone, Debug)]
@@ -270,6 +299,9 @@ pub struct P17 {
     /// the thread creating the table file with this index (among those created while the actors
     /// run) is parked there until the gated actor releases it
     pub park_at_table_create: Vec<u64>,
+    /// judge every create / rename / remove made after a successful open by a thread that existed
+    /// before that open began (costs one extra task per open attempt)
+    pub track_foreign_mutations: bool,
 }
 
 impl P17 {
@@ -332,6 +364,7 @@ fn body(p: &P17) -> Option<(String, String)> {
         park_at_table_create: p.park_at_table_create.clone(),
         table_creates: AtomicU64::new(0),
         gate: Arc::new(Gate::default()),
+        mutations: Mutex::new(vec![]),
     });
     let alive = Arc::new(AtomicI64::new(0));
     let max_alive = Arc::new(AtomicI64::new(0));
@@ -340,10 +373,15 @@ fn body(p: &P17) -> Option<(String, String)> {
     // probes of every instance ever opened: (actor, probe)
     let probes: Arc<Mutex<Vec<(usize, raindb::db::verif_hooks::VerifProbe)>>> = Arc::new(Mutex::new(vec![]));
     let overlap: Arc<Mutex<Option<String>>> = Arc::new(Mutex::new(None));
+    // for the "previous owner still writes" oracle: the runtime tasks of the actors themselves,
+    // and per successful open (actor, marker task id, clock at its return)
+    let actor_tasks: Arc<Mutex<Vec<usize>>> = Arc::new(Mutex::new(vec![]));
+    let opens_ok: Arc<Mutex<Vec<(usize, usize, u64)>>> = Arc::new(Mutex::new(vec![]));
+    let track_foreign = p.track_foreign_mutations;
     let get = |db: &DB, k: &[u8]| db.get(ReadOptions::default(), k).ok();
     let mut owner: Option<DB> = None;
     match p.initial {
-        Initial::Absent | Initial::ClosedCompactionDue => {}
+        Initial::Absent | Initial::ClosedCompactionDue | Initial::ClosedTwoOverlappingTables => {}
         Initial::Closed | Initial::Open => {
             let db = match DB::open(opts(&fs)) {
                 Ok(db) => db,
@@ -358,6 +396,11 @@ fn body(p: &P17) -> Option<(String, String)> {
                 owner = Some(db);
             }
         }
+    }
+    // the two start states below are built under the scheduler's default choices (harness work,
+    // not explored) and with a memtable budget that no setup write exceeds
+    if p.initial == Initial::ClosedCompactionDue || p.initial == Initial::ClosedTwoOverlappingTables {
+        parking_lot::verif_rt::set_oracle_mode(true);
     }
     if p.initial == Initial::ClosedCompactionDue {
         // four incarnations without log reuse: each recovery turns the WAL its predecessor left
@@ -381,6 +424,31 @@ fn body(p: &P17) -> Option<(String, String)> {
             drop(db);
         }
     }
+    if p.initial == Initial::ClosedTwoOverlappingTables {
+        let sessions: [&[&[u8]]; 3] = [&[b"a", b"m", b"z"], &[b"b", b"c", b"y"], &[]];
+        for (s, keys) in sessions.iter().enumerate() {
+            let mut o = opts(&fs);
+            o.reuse_log_files = false;
+            o.max_memtable_size = 1 << 20;
+            let db = match DB::open(o) {
+                Ok(db) => db,
+                Err(e) => return Some(("C17.setup".into(), format!("setup open {} failed: {}", s, e))),
+            };
+            for k in keys.iter() {
+                if let Err(e) = db.put(WriteOptions::default(), k.to_vec(), b"v".to_vec()) {
+                    return Some(("C17.setup".into(), format!("setup put failed: {}", e)));
+                }
+            }
+            if s == 2 {
+                let l0 = db.verif_layout().get(0).map(|l| l.len()).unwrap_or(0);
+                if l0 != 2 {
+                    return Some(("C17.setup".into(), format!("setup expected two level-0 tables, found {}", l0)));
+                }
+            }
+            drop(db);
+        }
+    }
+    parking_lot::verif_rt::set_oracle_mode(false);
     let owner_open_ret = tick();
     fs.on.store(true, Ordering::SeqCst);
     let mut handles = vec![];
@@ -392,6 +460,8 @@ fn body(p: &P17) -> Option<(String, String)> {
         let acked = Arc::clone(&acked);
         let probes = Arc::clone(&probes);
         let overlap = Arc::clone(&overlap);
+        let actor_tasks = Arc::clone(&actor_tasks);
+        let opens_ok = Arc::clone(&opens_ok);
         let a = *a;
         handles.push(shuttle::thread::spawn(move || -> Option<DB> {
             let push = |what: &'static str, invoke: u64, ok: bool, err: String| {
@@ -404,16 +474,32 @@ fn body(p: &P17) -> Option<(String, String)> {
                     push("destroy", i, r.is_ok(), r.err().map(|e| e.to_string()).unwrap_or_default());
                     None
                 }
-                Actor::OpenPutClose | Actor::OpenHold | Actor::OpenErrIfExists | Actor::OpenNoCreate | Actor::OpenNoReuse | Actor::OpenNoReuseGated | Actor::OpenRetryHold => {
+                Actor::OpenPutClose | Actor::OpenHold | Actor::OpenErrIfExists | Actor::OpenNoCreate | Actor::OpenNoReuse | Actor::OpenNoReuseGated | Actor::OpenRetryHold | Actor::OpenGetsClose => {
+                    if let Some(me) = shuttle::current::get_current_task().map(usize::from) {
+                        actor_tasks.lock().unwrap().push(me);
+                    }
                     let mut attempt = 0u32;
                     loop {
                     attempt += 1;
+                    // every task of the runtime that exists now has a smaller id than a task
+                    // spawned now: the tasks of the instance about to be opened have larger ones
+                    // (the marker task does nothing and is never waited for: its id is known from its
+                    // handle; joining it would hand the processor to every lower-numbered thread first)
+                    let marker: Option<usize> = if track_foreign {
+                        let h = shuttle::thread::spawn(|| ());
+                        Some(usize::from(h.thread().id()))
+                    } else {
+                        None
+                    };
                     let i = tick();
                     match DB::open(opts_for(&fs, a)) {
                         Ok(db) => {
                             let n = alive.fetch_add(1, Ordering::SeqCst) + 1;
                             max_alive.fetch_max(n, Ordering::SeqCst);
                             push("open", i, true, String::new());
+                            if let Some(m) = marker {
+                                opens_ok.lock().unwrap().push((ai, m, CLK.load(Ordering::SeqCst)));
+                            }
                             // no other instance may still have background work in flight
                             let others: Vec<usize> = {
                                 let ps = std::mem::take(&mut *probes.lock().unwrap());
@@ -438,15 +524,35 @@ fn body(p: &P17) -> Option<(String, String)> {
                             // (creating its output) before the actor writes anything
                             let probe_own = db.verif_probe();
                             let wait_stage = |k: u32| {
-                                // (or the background work has gone idle: then nobody will arrive)
+                                // (a bounded number of yields: every one of them hands the processor to
+                                // the background thread until that blocks, so a few are plenty; the
+                                // instance's own "work is scheduled" flag is not consulted - a change
+                                // that forgets to set it is among the things to be found)
+                                let _ = &probe_own;
                                 let mut spins = 0u32;
-                                while !fs.gate.arrived(k) && probe_own.background_work_pending() && spins < 100_000 {
+                                while !fs.gate.arrived(k) && spins < 50 {
                                     shuttle::thread::yield_now();
                                     spins += 1;
                                 }
                             };
                             if a == Actor::OpenNoReuseGated {
                                 wait_stage(0);
+                            }
+                            if a == Actor::OpenGetsClose {
+                                for _ in 0..100 {
+                                    let _ = db.get(ReadOptions::default(), b"m");
+                                }
+                                if trace() {
+                                    trace_line(format!("[c17] after the 100 gets: background work pending = {}, layout = {:?}", db.verif_probe().background_work_pending(), db.verif_layout().iter().map(|l| l.len()).collect::<Vec<_>>()));
+                                }
+                                // the compaction thread is parked where it creates its output
+                                wait_stage(0);
+                                alive.fetch_sub(1, Ordering::SeqCst);
+                                fs.gate.release_all_and_announce_close();
+                                let i = tick();
+                                drop(db);
+                                push("close", i, true, String::new());
+                                return None;
                             }
                             for j in 0..3 {
                                 let i = tick();
@@ -473,7 +579,7 @@ fn body(p: &P17) -> Option<(String, String)> {
                         }
                         Err(e) => {
                             push("open", i, false, e.to_string());
-                            if a == Actor::OpenNoReuseGated {
+                            if a == Actor::OpenNoReuseGated || a == Actor::OpenGetsClose {
                                 fs.gate.release_all_and_announce_close();
                             }
                             if a != Actor::OpenRetryHold || attempt >= 40 {
@@ -481,6 +587,9 @@ fn body(p: &P17) -> Option<(String, String)> {
                             }
                             if attempt == 1 {
                                 fs.gate.wait_closing();
+                                if trace() {
+                                    trace_line(format!("[c17] the retrying opener has been told that the owner closes (clock {})", CLK.load(Ordering::SeqCst)));
+                                }
                             } else {
                                 shuttle::thread::yield_now();
                             }
@@ -506,11 +615,37 @@ fn body(p: &P17) -> Option<(String, String)> {
         e.iter().map(|e| format!("A{} {} [{}..{}] -> {}", e.actor, e.what, e.invoke, e.ret, if e.ok { "Ok".to_string() } else { format!("Err({})", e.err.chars().take(40).collect::<String>()) })).collect::<Vec<_>>().join(" | ")
     };
     if trace() {
-        trace_line(format!("[c17] {} table files created while the actors ran; history: {}", fs.table_creates.load(Ordering::SeqCst), hist()));
+        trace_line(format!(
+            "[c17] {} table files created while the actors ran; history: {}; mutations: {:?}; actor tasks {:?}; opens {:?}",
+            fs.table_creates.load(Ordering::SeqCst),
+            hist(),
+            fs.mutations.lock().unwrap().iter().map(|(t, c, w)| format!("t{}@{} {}", t, c, w)).collect::<Vec<_>>(),
+            actor_tasks.lock().unwrap(),
+            opens_ok.lock().unwrap()
+        ));
     }
     let mut verdict: Option<(String, String)> = None;
     if let Some(m) = overlap.lock().unwrap().take() {
         verdict = Some(("C17.open_during_close".into(), format!("{}: {}", m, hist())));
+    }
+    if verdict.is_none() {
+        // once an open has succeeded nobody but the new instance (tasks spawned after the open began)
+        // and the actors' own threads may create, rename or remove anything in the directory: a task
+        // that existed before the open began and still does so is a previous owner's thread
+        let actors = actor_tasks.lock().unwrap().clone();
+        let muts = fs.mutations.lock().unwrap().clone();
+        'outer: for (ai, marker, ret) in opens_ok.lock().unwrap().iter() {
+            for (t, c, what) in muts.iter() {
+                // (`ret` is the next clock value at the moment the open had returned)
+                if *c >= *ret && *t < *marker && !actors.contains(t) {
+                    verdict = Some((
+                        "C17.previous_owner_still_writing".into(),
+                        format!("after actor {}'s open had succeeded, a thread that already existed before that open began (task {}, not an actor) did: {} - the previous owner's background thread is still working on the directory ({})", ai, t, what, hist()),
+                    ));
+                    break 'outer;
+                }
+            }
+        }
     }
     if verdict.is_none() && max_alive.load(Ordering::SeqCst) > 1 {
         verdict = Some(("C17.two_owners".into(), format!("two successfully opened handles were alive at the same time: {}", hist())));
@@ -645,8 +780,8 @@ fn body(p: &P17) -> Option<(String, String)> {
 
 pub fn programs() -> Vec<P17> {
     use Actor::*;
-    let mk = |name: &str, initial: Initial, actors: Vec<Actor>| P17 { name: name.to_string(), initial, actors, fail_wal_write: None, park_at_table_create: vec![] };
-    let mkf = |name: &str, initial: Initial, actors: Vec<Actor>, k: u64| P17 { name: name.to_string(), initial, actors, fail_wal_write: Some(k), park_at_table_create: vec![] };
+    let mk = |name: &str, initial: Initial, actors: Vec<Actor>| P17 { name: name.to_string(), initial, actors, fail_wal_write: None, park_at_table_create: vec![], track_foreign_mutations: false };
+    let mkf = |name: &str, initial: Initial, actors: Vec<Actor>, k: u64| P17 { name: name.to_string(), initial, actors, fail_wal_write: Some(k), park_at_table_create: vec![], track_foreign_mutations: false };
     vec![
         // the owner's third put rotates the memtable (a flush is scheduled) and its WAL append
         // fails: the close that follows must still hold the lock until the flush has ended
@@ -662,7 +797,10 @@ pub fn programs() -> Vec<P17> {
         // memtable (which it does in the middle of its merge loop), until the owner starts to close.
         // The flush then ends and signals it while the compaction is still at work: the closing
         // owner must go on waiting. The second actor keeps trying to open all the while
-        P17 { name: "compaction-due:open-noreuse(compaction parked until close)||retry-hold".to_string(), initial: Initial::ClosedCompactionDue, actors: vec![OpenNoReuseGated, OpenRetryHold], fail_wal_write: None, park_at_table_create: vec![1, 2] },
+        P17 { name: "compaction-due:open-noreuse(compaction parked until close)||retry-hold".to_string(), initial: Initial::ClosedCompactionDue, actors: vec![OpenNoReuseGated, OpenRetryHold], fail_wal_write: None, park_at_table_create: vec![1, 2], track_foreign_mutations: true },
+        // a get-triggered (seek) compaction is scheduled by the owner's last read and parked where it
+        // creates its output table until the owner starts to close; the other actor keeps trying to open
+        P17 { name: "seek-compaction-due:open-100gets-close||retry-hold".to_string(), initial: Initial::ClosedTwoOverlappingTables, actors: vec![OpenGetsClose, OpenRetryHold], fail_wal_write: None, park_at_table_create: vec![0], track_foreign_mutations: true },
         mk("closed:hold||hold", Initial::Closed, vec![OpenHold, OpenHold]),
         mk("closed:hold||hold||hold", Initial::Closed, vec![OpenHold, OpenHold, OpenHold]),
         mk("absent:hold||hold", Initial::Absent, vec![OpenHold, OpenHold]),
@@ -779,7 +917,7 @@ fn replay(p: &P17, choices: &[usize]) -> Option<String> {
 fn bound_for(p: &P17, bound: (usize, usize), thorough: bool) -> (usize, usize) {
     // (also the programs with the most schedules per deviation: two full open/put/close bodies,
     // and the attempts that fail for a reason of their own)
-    let heavy = p.name.starts_with("compaction-due") || p.name.contains("open-eie") || p.name.contains("open-nocreate") || p.name == "open:open||open" || p.name.ends_with("||openclose");
+    let heavy = p.name.starts_with("compaction-due") || p.name.starts_with("seek-compaction-due") || p.name.contains("open-eie") || p.name.contains("open-nocreate") || p.name == "open:open||open" || p.name.ends_with("||openclose");
     if !thorough && (p.actors.len() >= 3 || heavy) {
         (bound.0, bound.1 - 1)
     } else {
